@@ -7,6 +7,8 @@ From Coq Require Import Reals Bool List.
 From Coquelicot Require Import Coquelicot.
 From SpdVerif Require Import Base.Rx Model.SpectrumSetup Gen.Spectrum Gen.Efficiencies Model.Spectrum Spec.Overlap
   Proofs.C07_defined Proofs.C08_efficiency Proofs.C08_overlap Proofs.C08_sums Proofs.C08_examples.
+From SpdVerif Require Import Base.CxPM Model.PMParams Model.PMLimit Gen.PMIntegrand Gen.PMSingles Proofs.C05_closure
+  Proofs.C05_waistlimit_walkoff Proofs.PM_singles_limit Proofs.C08_limit_generated Proofs.C08_limit_from_integrands Proofs.C08_limit_examples.
 Local Open Scope R_scope.
 
 (* ---------- 1. efficiency algebra, for all triples of rates with non-negative singles *)
@@ -74,6 +76,40 @@ Proof.
   exact (fun Wp Ws L t Hp Hs => conj (R_outer_ex Wp Ws L t Hp Hs) (conj (fun z1 => R_inner_ex Wp Ws L t z1 Hp Hs) (R_walkoff_range Wp Ws L t Hp Hs))).
 Qed.
 
+(* ---------- 3b. the no-diffraction limit, PROVED (as a limit) on the GENERATED integrands (group I's proofs:
+   Gen/PMIntegrand.v pm_integrand = coincidence integrand, Gen/PMSingles.v pms_integrand = singles integrand, both translated
+   from the Rust source).  Collinear setup, round beams Wp/Ws/Wi, no apodization, perfect phase matching (ff = L Δk_z/2 = 0);
+   pm_scale_wr s scales the three waists and the walk-off length by s.  Pointwise s^4·pm_integrand -> Lc, s^6·pms_integrand -> Ls,
+   and  Wi²·|½∫Lc|² / (¼∬|Ls|) = limit_ratio = η·F²/R  with η, F, R, x of Spec/Overlap.v.
+   Not proved: the RATE of convergence (the property's 1e-4 at waists >= 1 mm) — validated by the oracle. *)
+Theorem C08_limit_generated : forall p Wp Ws Wi,
+  pm_collinear p ->
+  p_wpx p = Wp -> p_wpy p = Wp -> p_wsx p = Ws -> p_wsy p = Ws -> p_wix p = Wi -> p_wiy p = Wi ->
+  0 < Wp -> 0 < Ws -> 0 < Wi ->
+  (forall z, p_apod p z = 1) -> pm_ff p = 0 -> pms_k_p p <> 0 -> pms_k_s p <> 0 ->
+  let psi := pm_ks_f p * p_z0s p + pm_ki_f p * p_z0i p + pm_ee p in
+  let Lc := coinc_limit_integrand Wp Ws Wi (p_L p) (tan (p_rho p)) psi in
+  let Ls := singles_limit_integrand Wp Ws (p_L p) (tan (p_rho p)) in
+  (forall z, filterlim (fun s => Cmult (RtoC ((s * s) * (s * s))) (pm_integrand (pm_scale_wr s p) z)) (Rbar_locally p_infty) (locally (Lc z))) /\
+  (forall z1 z2, filterlim (fun s => Cmult (RtoC ((s * s) * (s * s) * (s * s))) (pms_integrand (pm_scale_wr s p) z1 z2))
+                           (Rbar_locally p_infty) (locally (Ls z1 z2))) /\
+  Wi ^ 2 * Cmod (Cmult (RtoC (1 / 2)) (Cint Lc (-1) 1)) ^ 2 /
+    (/ 4 * RInt (fun z1 => RInt (fun z2 => Cmod (Ls z1 z2)) (-1) 1) (-1) 1) = limit_ratio Wp Ws Wi (p_L p) (tan (p_rho p)).
+Proof. exact limit_ratio_generated. Qed.
+
+Theorem C08_limit_coincidence_integrand : forall p z,
+  pm_collinear p -> 0 < pm_Ws_SQ p -> 0 < pm_Wi_SQ p ->
+  filterlim (fun s => Cmult (RtoC ((s * s) * (s * s))) (pm_integrand (pm_scale_wr s p) z)) (Rbar_locally p_infty)
+            (locally (plane_wave_valueW (p_apod p) (pm_Wx_SQ p) (pm_Wy_SQ p) (pm_Ws_SQ p) (pm_Wi_SQ p) (0.5 * p_L p * tan (p_rho p))
+                                        (pm_ks_f p * p_z0s p + pm_ki_f p * p_z0i p) (pm_ee p) (pm_ff p) z)).
+Proof. exact coincidence_integrand_limit. Qed.
+
+Theorem C08_limit_singles_integrand : forall p z1 z2,
+  pm_collinear p -> pms_k_p p <> 0 -> pms_k_s p <> 0 -> 0 < pms_Ws_SQ p -> 0 < pms_Wx_SQ p -> 0 < pms_Wy_SQ p ->
+  filterlim (fun s => Cmult (RtoC ((s * s) * (s * s) * (s * s))) (pms_integrand (pm_scale_wr s p) z1 z2)) (Rbar_locally p_infty)
+            (locally (singles_limit_value (p_apod p) (pms_Wx_SQ p) (pms_Wy_SQ p) (pms_Ws_SQ p) (p_L p * tan (p_rho p)) (pms_C3 p) z1 z2)).
+Proof. exact singles_integrand_limit. Qed.
+
 (* ---------- 4. conditional chain (partial: the pointwise hypothesis is validated by the oracle, not proved) *)
 Theorem C08_pointwise_partial : forall corr pts dw2 s sw,
   0 <= corr -> 0 <= dw2 ->
@@ -104,6 +140,12 @@ Example C08_nonvacuous_rates : 0 <= 3 /\ 3 <= 4 /\ 3 <= 5 /\ eff_signal (efficie
 Proof. exact example_rates. Qed.
 Example C08_nonvacuous_zero_rates : eff_symmetric (efficiencies_from_counts 0 0 0) = 0 /\ eff_signal (efficiencies_from_counts 1 2 0) = 0.
 Proof. exact example_zero_rates. Qed.
+Example C08_nonvacuous_limit :
+  pm_collinear limit_example /\
+  p_wpx limit_example = 0.0025 /\ p_wpy limit_example = 0.0025 /\ p_wsx limit_example = 0.002 /\ p_wsy limit_example = 0.002 /\
+  p_wix limit_example = 0.003 /\ p_wiy limit_example = 0.003 /\
+  (forall z, p_apod limit_example z = 1) /\ pm_ff limit_example = 0 /\ pms_k_p limit_example <> 0 /\ pms_k_s limit_example <> 0.
+Proof. exact limit_example_ok. Qed.
 Example C08_nonvacuous_pointwise : exists corr pts dw2 s sw, 0 <= corr /\ 0 <= dw2 /\ pts <> nil /\
   (forall p, In p pts ->
      0 <= spectrum_jsi (fst p) (snd p) s /\
@@ -122,5 +164,8 @@ Print Assumptions C08_F_range.
 Print Assumptions C08_no_walkoff.
 Print Assumptions C08_R_integrand_range.
 Print Assumptions C08_R_range.
+Print Assumptions C08_limit_generated.
+Print Assumptions C08_limit_coincidence_integrand.
+Print Assumptions C08_limit_singles_integrand.
 Print Assumptions C08_pointwise_partial.
 Print Assumptions C08_ratio_structure.
